@@ -188,7 +188,7 @@ Definition is_link (s : fs) (cwd : rpath) (p : upath) : bool :=
 
 Definition shutil_move_fs (s : fs) (cwd : rpath) (src dst : upath) : sysres :=
   if is_dir s cwd dst then
-    if same_entry s cwd src dst && negb (is_link s cwd src) then os_rename s cwd src dst
+    if same_entry s cwd src dst then os_rename s cwd src dst      (* CPython 3.12: _samefile(src, dst), links followed *)
     else
       let real_dst := {| up_abs := up_abs dst; up_comps := up_comps dst ++ [last (up_comps src) []] |} in
       if exists_ s cwd real_dst then SErr EEXIST     (* shutil.Error: an OSError, not a FileExistsError *)
